@@ -9,6 +9,7 @@
  ******************************************************************************/
 
 #include <tlx/thread_pool.hpp>
+#include <tlx/define/verif_probe.hpp>
 #include <atomic>
 #include <cassert>
 #include <cstddef>
@@ -112,6 +113,7 @@ void ThreadPool::worker(size_t p)
         if (!terminate_ && jobs_.empty())
         {
             ++idle_;
+            TLX_VERIF_PROBE("pool.worker.idle_wait");
             cv_jobs_.wait(lock,
                           [this]() { return terminate_ || !jobs_.empty(); });
             --idle_;
@@ -124,6 +126,7 @@ void ThreadPool::worker(size_t p)
         {
             // got work. set busy.
             ++busy_;
+            TLX_VERIF_PROBE("pool.worker.job_taken");
 
             {
                 // pull job.
